@@ -10,18 +10,412 @@ namespace Alos2
 
 /-! ### generic -/
 
+/-! #### helpers: the `Except` monad, byte windows -/
+
+namespace Layout
+
+theorem bind_ok {α β : Type} {x : Except Err α} {f : α → Except Err β} {b : β} :
+    (x >>= f) = .ok b ↔ ∃ a, x = .ok a ∧ f a = .ok b := by
+  cases x <;> simp [bind, Except.bind]
+
+theorem pure_ok {α : Type} {a b : α} : (pure a : Except Err α) = .ok b ↔ a = b := by
+  simp [pure, Except.pure]
+
+theorem readBytes_ok {bs : Bytes} {pos n : Nat} {raw : Bytes} (h : readBytes bs pos n = .ok raw) :
+    pos + n ≤ bs.length ∧ raw = slice bs pos (pos + n) := by
+  unfold readBytes at h
+  split at h
+  · simp at h; exact ⟨by assumption, h.symm⟩
+  · simp at h
+
+theorem evalLen_const {ctx : Ctx} {v : Int} {n : Nat} (h : evalLen ctx (.const v) = .ok n) :
+    ¬ v < 0 ∧ n = v.toNat := by
+  simp [evalLen, Expr.eval] at h
+  split at h <;> simp_all
+
+theorem parseMany_static (p : Nat → Except Err (Val × Nat)) (k len : Nat)
+    (hp : ∀ pos v pos', p pos = .ok (v, pos') → pos' = pos + k ∧ (0 < k → pos + k ≤ len)) :
+    ∀ (n pos : Nat) (vs : List Val) (pos' : Nat), parseMany p n pos = .ok (vs, pos') →
+      pos' = pos + n * k ∧ (0 < n * k → pos + n * k ≤ len) := by
+  intro n
+  induction n with
+  | zero => intro pos vs pos' h; simp [parseMany] at h; omega
+  | succ n ih =>
+    intro pos vs pos' h
+    rw [parseMany] at h
+    simp only [bind_ok, pure_ok] at h
+    obtain ⟨⟨v1, p1⟩, h1, ⟨vs2, p2⟩, h2, h3⟩ := h
+    simp at h3
+    obtain ⟨hp1, hp2⟩ := hp _ _ _ h1
+    obtain ⟨ih1, ih2⟩ := ih _ _ _ h2
+    subst hp1; subst ih1
+    rw [Nat.succ_mul]
+    refine ⟨by omega, fun hk => ?_⟩
+    rcases Nat.eq_zero_or_pos k with hk0 | hk0
+    · subst hk0; simp at hk
+    · rcases Nat.eq_zero_or_pos n with hn | hn
+      · subst hn; have := hp2 hk0; omega
+      · have := ih2 (Nat.mul_pos hn hk0); omega
+
+theorem static_joint :
+    (∀ (c : Con) (ctx : Ctx) (bs : Bytes) (pos : Nat), ∀ k v pos', Con.sizeWith false c = some k →
+        parse c ctx bs pos = .ok (v, pos') → pos' = pos + k ∧ (0 < k → pos + k ≤ bs.length)) ∧
+    (∀ (fs : List (String × Con)) (ctx : Ctx) (bs : Bytes) (pos : Nat), ∀ k v pos',
+        Con.sizeFields false fs = some k →
+        parseFields fs ctx bs pos = .ok (v, pos') → pos' = pos + k ∧ (0 < k → pos + k ≤ bs.length)) := by
+  apply parse.mutual_induct
+  case case1 =>
+    intro fs ctx bs pos ih k v pos' hs h
+    rw [Con.sizeWith] at hs; rw [parse] at h
+    exact ih k v pos' hs h
+  case case2 =>
+    intro n ctx bs pos k v pos' hs h
+    rw [Con.sizeWith] at hs; rw [parse] at h
+    simp only [bind_ok, pure_ok] at h
+    obtain ⟨raw, h1, h2⟩ := h
+    have := readBytes_ok h1
+    simp at hs h2
+    omega
+  case case3 =>
+    intro e ctx bs pos k v pos' hs h
+    cases e <;> simp [Con.sizeWith] at hs
+    rw [parse] at h
+    simp only [bind_ok, pure_ok] at h
+    obtain ⟨n, h0, raw, h1, lf, _, h2⟩ := h
+    have := readBytes_ok h1
+    have := evalLen_const h0
+    simp at h2
+    omega
+  case case4 =>
+    intro e ctx bs pos k v pos' hs h
+    cases e <;> simp [Con.sizeWith] at hs
+    rw [parse] at h
+    simp only [bind_ok, pure_ok] at h
+    obtain ⟨n, h0, raw, h1, lf, _, h2⟩ := h
+    have := readBytes_ok h1
+    have := evalLen_const h0
+    simp at h2
+    omega
+  case case5 =>
+    intro e ctx bs pos k v pos' hs h
+    cases e <;> simp [Con.sizeWith] at hs
+    rw [parse] at h
+    simp only [bind_ok, pure_ok] at h
+    obtain ⟨n, h0, raw, h1, lf, _, raw2, h3, lf2, _, h2⟩ := h
+    have := readBytes_ok h1
+    have := readBytes_ok h3
+    have := evalLen_const h0
+    simp at h2
+    omega
+  case case6 =>
+    intro e ctx bs pos k v pos' hs h
+    cases e <;> simp [Con.sizeWith] at hs
+    rw [parse] at h
+    simp only [bind_ok, pure_ok] at h
+    obtain ⟨n, h0, raw, h1, lf, _, h2⟩ := h
+    have := readBytes_ok h1
+    have := evalLen_const h0
+    simp at h2
+    omega
+  case case7 =>
+    intro e ctx bs pos k v pos' hs h
+    cases e <;> simp [Con.sizeWith] at hs
+    rw [parse] at h
+    simp only [bind_ok, pure_ok] at h
+    obtain ⟨n, h0, raw, h1, h2⟩ := h
+    have := readBytes_ok h1
+    have := evalLen_const h0
+    simp at h2
+    omega
+  case case8 =>
+    intro count elem ctx bs pos ih k v pos' hs h
+    cases count <;> simp [Con.sizeWith] at hs
+    obtain ⟨hv, ke, hke, hk⟩ := hs
+    rw [parse] at h
+    simp only [bind_ok, pure_ok] at h
+    obtain ⟨n, h0, ⟨vs, p1⟩, h1, h2⟩ := h
+    have := evalLen_const h0
+    have := parseMany_static (fun p => parse elem ctx bs p) ke bs.length
+      (fun p v p' hh => ih p ke v p' hke hh) n pos vs p1 h1
+    simp at h2
+    obtain ⟨_, rfl⟩ := h2
+    subst hk
+    simp_all
+  case case9 =>
+    intro f sub ctx bs pos ih k v pos' hs h
+    rw [Con.sizeWith] at hs; rw [parse] at h
+    simp only [bind_ok, pure_ok] at h
+    obtain ⟨⟨v1, p1⟩, h1, w, _, h2⟩ := h
+    simp at h2
+    obtain ⟨_, rfl⟩ := h2
+    exact ih k v1 _ hs h1
+  case case10 =>
+    intro attrs sub ctx bs pos ih k v pos' hs h
+    rw [Con.sizeWith] at hs; rw [parse] at h
+    simp only [bind_ok, pure_ok] at h
+    obtain ⟨⟨v1, p1⟩, h1, h2⟩ := h
+    simp at h2
+    obtain ⟨_, rfl⟩ := h2
+    exact ih k v1 _ hs h1
+  case case11 =>
+    intro table sub ctx bs pos ih k v pos' hs h
+    rw [Con.sizeWith] at hs; rw [parse] at h
+    simp only [bind_ok, pure_ok] at h
+    obtain ⟨⟨v1, p1⟩, h1, w, _, h2⟩ := h
+    simp at h2
+    obtain ⟨_, rfl⟩ := h2
+    exact ih k v1 _ hs h1
+  case case12 =>
+    intro n ctx bs pos k v pos' hs h
+    rw [Con.sizeWith] at hs; rw [parse] at h
+    simp only [bind_ok, pure_ok] at h
+    obtain ⟨raw, h1, h2⟩ := h
+    have := readBytes_ok h1
+    simp at hs h2
+    omega
+  case case13 =>
+    intro sub ctx bs pos ih k v pos' hs h
+    rw [Con.sizeWith] at hs; rw [parse] at h
+    simp only [bind_ok, pure_ok] at h
+    obtain ⟨⟨v1, p1⟩, h1, w, _, h2⟩ := h
+    simp at h2
+    obtain ⟨_, rfl⟩ := h2
+    exact ih k v1 _ hs h1
+  case case14 =>
+    intro sub ref ctx bs pos ih k v pos' hs h
+    rw [Con.sizeWith] at hs
+    simp only [parse, bind_ok, pure_ok] at h
+    obtain ⟨⟨v1, p1⟩, h1, w, _, h2⟩ := h
+    simp at h2
+    obtain ⟨_, rfl⟩ := h2
+    exact ih k v1 _ hs h1
+  case case15 =>
+    intro ctx bs pos k v pos' hs h
+    rw [Con.sizeWith] at hs; rw [parse] at h
+    simp [pure_ok] at h hs
+    omega
+  case case16 =>
+    intro e ctx bs pos k v pos' hs h
+    simp [Con.sizeWith] at hs
+  case case17 =>
+    intro e ctx bs pos v0 he k v pos' hs h
+    rw [Con.sizeWith] at hs; rw [parse] at h
+    simp [he, pure_ok] at h hs
+    omega
+  case case18 =>
+    intro e ctx bs pos he k v pos' hs h
+    rw [parse] at h
+    simp [he, throw, throwThe, MonadExceptOf.throw] at h
+  case case19 =>
+    intro ctx bs pos k v pos' hs h
+    rw [Con.sizeFields] at hs; rw [parseFields] at h
+    simp at h hs
+    omega
+  case case20 =>
+    intro name c rest ctx bs pos ih1 ih2 k v pos' hs h
+    rw [Con.sizeFields] at hs; rw [parseFields] at h
+    simp only [bind_ok] at h
+    obtain ⟨⟨v1, p1⟩, h1, h2⟩ := h
+    split at hs
+    · rename_i a b ha hb
+      simp at hs
+      have := ih1 a v1 p1 ha h1
+      have := ih2 v1 p1 b v pos' hb h2
+      omega
+    · simp at hs
+
+
+theorem slice_getElem? {α : Type} (l : List α) (a b i : Nat) :
+    (slice l a b)[i]? = if i < b - a then l[a + i]? else none := by
+  simp [slice, List.getElem?_take, List.getElem?_drop]
+
+theorem slice_sub {α : Type} {l l' : List α} {a b c d : Nat} (h : slice l a b = slice l' a b)
+    (hac : a ≤ c) (hdb : d ≤ b) : slice l c d = slice l' c d := by
+  apply List.ext_getElem?
+  intro i
+  rw [slice_getElem?, slice_getElem?]
+  split
+  · have := congrArg (fun x => x[c - a + i]?) h
+    simp only [slice_getElem?] at this
+    rw [if_pos (by omega), if_pos (by omega)] at this
+    rw [show a + (c - a + i) = c + i by omega] at this
+    exact this
+  · rfl
+
+theorem readBytes_local {bs bs' : Bytes} {pos k q n : Nat}
+    (hsame : slice bs pos (pos + k) = slice bs' pos (pos + k))
+    (hlen : pos + k ≤ bs.length) (hlen' : pos + k ≤ bs'.length) (hq : pos ≤ q) (hn : q + n ≤ pos + k) :
+    readBytes bs q n = readBytes bs' q n := by
+  unfold readBytes
+  rw [if_pos (by omega), if_pos (by omega), slice_sub hsame hq hn]
+
+theorem evalLen_const_eq (ctx : Ctx) {v : Int} (hv : 0 ≤ v) : evalLen ctx (.const v) = .ok v.toNat := by
+  simp [evalLen, Expr.eval, Int.not_lt.mpr hv]
+
+theorem parseMany_local (p p' : Nat → Except Err (Val × Nat)) (k : Nat)
+    (hp : ∀ pos v pos', p' pos = .ok (v, pos') → pos' = pos + k) :
+    ∀ (n pos : Nat), (∀ q, pos ≤ q → q + k ≤ pos + n * k → p q = p' q) →
+      parseMany p n pos = parseMany p' n pos := by
+  intro n
+  induction n with
+  | zero => intro pos _; simp [parseMany]
+  | succ n ih =>
+    intro pos hloc
+    rw [parseMany, parseMany, hloc pos (Nat.le_refl _) (by rw [Nat.succ_mul]; omega)]
+    cases hres : p' pos with
+    | error e => rfl
+    | ok r =>
+      obtain ⟨v, p1⟩ := r
+      have := hp _ _ _ hres
+      subst this
+      simp only [bind, Except.bind]
+      rw [ih (pos + k) (fun q h1 h2 => hloc q (by omega) (by rw [Nat.succ_mul]; omega))]
+
+theorem local_joint :
+    (∀ (c : Con) (ctx : Ctx) (bs : Bytes) (pos : Nat), ∀ (bs' : Bytes) (k : Nat),
+        Con.sizeWith false c = some k → slice bs pos (pos + k) = slice bs' pos (pos + k) →
+        pos + k ≤ bs.length → pos + k ≤ bs'.length → parse c ctx bs pos = parse c ctx bs' pos) ∧
+    (∀ (fs : List (String × Con)) (ctx : Ctx) (bs : Bytes) (pos : Nat), ∀ (bs' : Bytes) (k : Nat),
+        Con.sizeFields false fs = some k → slice bs pos (pos + k) = slice bs' pos (pos + k) →
+        pos + k ≤ bs.length → pos + k ≤ bs'.length →
+        parseFields fs ctx bs pos = parseFields fs ctx bs' pos) := by
+  apply parse.mutual_induct
+  case case1 =>
+    intro fs ctx bs pos ih bs' k hs hsame hl hl'
+    rw [Con.sizeWith] at hs; rw [parse, parse]
+    exact ih bs' k hs hsame hl hl'
+  case case2 =>
+    intro n ctx bs pos bs' k hs hsame hl hl'
+    rw [Con.sizeWith] at hs; rw [parse, parse]
+    simp at hs; subst hs
+    rw [readBytes_local hsame hl hl' (Nat.le_refl _) (Nat.le_refl _)]
+  case case3 =>
+    intro e ctx bs pos bs' k hs hsame hl hl'
+    cases e <;> simp [Con.sizeWith] at hs
+    obtain ⟨hv, rfl⟩ := hs
+    rw [parse, parse, evalLen_const_eq ctx hv]
+    simp only [bind, Except.bind]
+    rw [readBytes_local hsame hl hl' (Nat.le_refl _) (Nat.le_refl _)]
+  case case4 =>
+    intro e ctx bs pos bs' k hs hsame hl hl'
+    cases e <;> simp [Con.sizeWith] at hs
+    obtain ⟨hv, rfl⟩ := hs
+    rw [parse, parse, evalLen_const_eq ctx hv]
+    simp only [bind, Except.bind]
+    rw [readBytes_local hsame hl hl' (Nat.le_refl _) (Nat.le_refl _)]
+  case case5 =>
+    intro e ctx bs pos bs' k hs hsame hl hl'
+    cases e <;> simp [Con.sizeWith] at hs
+    obtain ⟨hv, rfl⟩ := hs
+    rw [parse, parse, evalLen_const_eq ctx hv]
+    simp only [bind, Except.bind]
+    rw [readBytes_local hsame hl hl' (Nat.le_refl _) (by omega),
+      readBytes_local (q := pos + _) hsame hl hl' (by omega) (by omega)]
+  case case6 =>
+    intro e ctx bs pos bs' k hs hsame hl hl'
+    cases e <;> simp [Con.sizeWith] at hs
+    obtain ⟨hv, rfl⟩ := hs
+    rw [parse, parse, evalLen_const_eq ctx hv]
+    simp only [bind, Except.bind]
+    rw [readBytes_local hsame hl hl' (Nat.le_refl _) (Nat.le_refl _)]
+  case case7 =>
+    intro e ctx bs pos bs' k hs hsame hl hl'
+    cases e <;> simp [Con.sizeWith] at hs
+    obtain ⟨hv, rfl⟩ := hs
+    rw [parse, parse, evalLen_const_eq ctx hv]
+    simp only [bind, Except.bind]
+    rw [readBytes_local hsame hl hl' (Nat.le_refl _) (Nat.le_refl _)]
+  case case8 =>
+    intro count elem ctx bs pos ih bs' k hs hsame hl hl'
+    cases count <;> simp [Con.sizeWith] at hs
+    obtain ⟨hv, ke, hke, rfl⟩ := hs
+    rw [parse, parse, evalLen_const_eq ctx hv]
+    simp only [bind, Except.bind]
+    rw [parseMany_local (fun p => parse elem ctx bs p) (fun p => parse elem ctx bs' p) ke
+      (fun p v p' hh => (static_joint.1 elem ctx bs' p ke v p' hke hh).1) _ pos
+      (fun q h1 h2 => ih q bs' ke hke (slice_sub hsame h1 h2) (by omega) (by omega))]
+  case case9 =>
+    intro f sub ctx bs pos ih bs' k hs hsame hl hl'
+    rw [Con.sizeWith] at hs
+    simp only [parse]
+    rw [ih bs' k hs hsame hl hl']
+  case case10 =>
+    intro attrs sub ctx bs pos ih bs' k hs hsame hl hl'
+    rw [Con.sizeWith] at hs
+    simp only [parse]
+    rw [ih bs' k hs hsame hl hl']
+  case case11 =>
+    intro table sub ctx bs pos ih bs' k hs hsame hl hl'
+    rw [Con.sizeWith] at hs
+    simp only [parse]
+    rw [ih bs' k hs hsame hl hl']
+  case case12 =>
+    intro n ctx bs pos bs' k hs hsame hl hl'
+    rw [Con.sizeWith] at hs; rw [parse, parse]
+    simp at hs; subst hs
+    rw [readBytes_local hsame hl hl' (Nat.le_refl _) (Nat.le_refl _)]
+  case case13 =>
+    intro sub ctx bs pos ih bs' k hs hsame hl hl'
+    rw [Con.sizeWith] at hs
+    simp only [parse]
+    rw [ih bs' k hs hsame hl hl']
+  case case14 =>
+    intro sub ref ctx bs pos ih bs' k hs hsame hl hl'
+    rw [Con.sizeWith] at hs
+    simp only [parse]
+    rw [ih bs' k hs hsame hl hl']
+  case case15 =>
+    intro ctx bs pos bs' k hs hsame hl hl'
+    rw [parse, parse]
+  case case16 =>
+    intro e ctx bs pos bs' k hs hsame hl hl'
+    rw [parse, parse]
+  case case17 =>
+    intro e ctx bs pos v0 he bs' k hs hsame hl hl'
+    rw [parse, parse]
+  case case18 =>
+    intro e ctx bs pos he bs' k hs hsame hl hl'
+    rw [parse, parse]
+  case case19 =>
+    intro ctx bs pos bs' k hs hsame hl hl'
+    rw [parseFields, parseFields]
+  case case20 =>
+    intro name c rest ctx bs pos ih1 ih2 bs' k hs hsame hl hl'
+    rw [Con.sizeFields] at hs
+    split at hs
+    · rename_i a b ha hb
+      simp at hs; subst hs
+      rw [parseFields, parseFields, ih1 bs' a ha (slice_sub hsame (Nat.le_refl _) (by omega)) (by omega) (by omega)]
+      cases hres : parse c ctx bs' pos with
+      | error e => rfl
+      | ok r =>
+        obtain ⟨v, p1⟩ := r
+        obtain ⟨rfl, _⟩ := static_joint.1 c ctx bs' pos a v p1 ha hres
+        simp only [bind, Except.bind]
+        exact ih2 v (pos + a) bs' b hb (slice_sub hsame (by omega) (by omega)) (by omega) (by omega)
+    · simp at hs
+
+end Layout
+
+open Layout
+
 /-- a static layout (no dynamic length/count, no `Seek`) consumes exactly its static size,
     and (if that size is positive) all those bytes are present -/
 theorem parse_static (c : Con) (k : Nat) (hs : Con.staticSize c = some k)
     (ctx : Ctx) (bs : Bytes) (pos : Nat) (v : Val) (pos' : Nat)
     (h : parse c ctx bs pos = .ok (v, pos')) : pos' = pos + k ∧ (0 < k → pos + k ≤ bs.length) := by
-  sorry
+  exact static_joint.1 c ctx bs pos k v pos' hs h
 
 /-- a static layout read from too few bytes fails -/
 theorem parse_static_truncated (c : Con) (k : Nat) (hs : Con.staticSize c = some k) (hk : 0 < k)
     (ctx : Ctx) (bs : Bytes) (pos : Nat) (hcut : bs.length < pos + k) :
     ∃ e, parse c ctx bs pos = .error e := by
-  sorry
+  cases hres : parse c ctx bs pos with
+  | error e => exact ⟨e, rfl⟩
+  | ok r =>
+    obtain ⟨v, p⟩ := r
+    have := (parse_static c k hs ctx bs pos v p hres).2 hk
+    omega
 
 /-- locality: the result of parsing a static layout depends only on the bytes it consumes -/
 theorem parse_static_local (c : Con) (k : Nat) (hs : Con.staticSize c = some k)
@@ -29,7 +423,7 @@ theorem parse_static_local (c : Con) (k : Nat) (hs : Con.staticSize c = some k)
     (hsame : slice bs pos (pos + k) = slice bs' pos (pos + k))
     (hlen : pos + k ≤ bs.length) (hlen' : pos + k ≤ bs'.length) :
     parse c ctx bs pos = parse c ctx bs' pos := by
-  sorry
+  exact local_joint.1 c ctx bs pos bs' k hs hsame hlen hlen'
 
 /-! ### static sizes of the generated records (recomputed on the regenerated terms) -/
 
@@ -47,6 +441,353 @@ theorem static_sizes :
     Con.staticSize Gen.textRecord = some 360 := by
   decide +kernel
 
+/-! ### the context of a struct: member lookup, persistence of bindings -/
+
+namespace Layout
+
+def KeysNodup (lvl : List (String × Val)) : Prop := (lvl.map Prod.fst).Nodup
+
+theorem lookup_map_ne (l : List (String × Val)) (name name' : String) (v : Val) (hn : ¬ name' = name) :
+    lookupField (l.map (fun kv => if kv.1 = name then (name, v) else kv)) name' = lookupField l name' := by
+  induction l with
+  | nil => rfl
+  | cons a l ih =>
+    unfold lookupField at ih ⊢
+    rw [List.map_cons, List.find?_cons, List.find?_cons]
+    have h1 : ¬ name = name' := fun h => hn h.symm
+    by_cases ha : a.1 = name
+    · have h2 : ¬ a.1 = name' := by rw [ha]; exact h1
+      simp only [ha, h1, ↓reduceIte, decide_false]
+      exact ih
+    · rw [if_neg ha]
+      by_cases hb : a.1 = name'
+      · simp only [hb, decide_true]
+      · simp only [hb, decide_false]
+        exact ih
+
+theorem lookup_map_eq (l : List (String × Val)) (name : String) (v : Val)
+    (hex : l.any (fun kv => kv.1 = name) = true) :
+    lookupField (l.map (fun kv => if kv.1 = name then (name, v) else kv)) name = some v := by
+  induction l with
+  | nil => simp at hex
+  | cons a l ih =>
+    unfold lookupField at ih ⊢
+    rw [List.map_cons, List.find?_cons]
+    by_cases ha : a.1 = name
+    · simp only [ha, ↓reduceIte, decide_true, Option.map_some]
+    · simp only [List.any_cons, ha, decide_false, Bool.false_or] at hex
+      simp only [ha, ↓reduceIte, decide_false]
+      exact ih hex
+
+theorem lookupField_setField (lvl : List (String × Val)) (name name' : String) (v : Val) :
+    lookupField (setField lvl name v) name' = if name' = name then some v else lookupField lvl name' := by
+  unfold setField
+  split
+  · rename_i hex
+    by_cases hn : name' = name
+    · subst hn; rw [if_pos rfl]; exact lookup_map_eq _ _ _ hex
+    · rw [if_neg hn]; exact lookup_map_ne _ _ _ _ hn
+  · by_cases hn : name' = name
+    · simp [lookupField, hn]
+    · have : ¬ name = name' := fun h => hn h.symm
+      simp [lookupField, hn, this]
+
+theorem KeysNodup_setField {lvl : List (String × Val)} (name : String) (v : Val) (h : KeysNodup lvl) :
+    KeysNodup (setField lvl name v) := by
+  unfold setField
+  split
+  · unfold KeysNodup at *
+    have : (lvl.map (fun kv => if kv.1 = name then (name, v) else kv)).map Prod.fst = lvl.map Prod.fst := by
+      rw [List.map_map]
+      apply List.map_congr_left
+      intro a _
+      simp only [Function.comp]
+      split <;> simp_all
+    rw [this]; exact h
+  · rename_i hex
+    unfold KeysNodup at *
+    simp only [List.map_cons, List.nodup_cons]
+    refine ⟨?_, h⟩
+    simp at hex ⊢
+    intro x hx
+    exact hex _ hx
+
+theorem find_reverse_nodup (lvl : List (String × Val)) (name : String) (h : KeysNodup lvl) :
+    lvl.reverse.find? (fun kv => kv.1 = name) = lvl.find? (fun kv => kv.1 = name) := by
+  induction lvl with
+  | nil => rfl
+  | cons a l ih =>
+    unfold KeysNodup at h
+    simp only [List.map_cons, List.nodup_cons] at h
+    rw [List.reverse_cons, List.find?_append, ih h.2, List.find?_cons]
+    by_cases ha : a.1 = name
+    · have : l.find? (fun kv => kv.1 = name) = none := by
+        rw [List.find?_eq_none]
+        intro x hx hxn
+        simp at hxn
+        apply h.1
+        rw [ha, ← hxn]
+        exact List.mem_map_of_mem hx
+      simp [this, ha]
+    · simp [ha]
+
+theorem dict_get_reverse (lvl : List (String × Val)) (name : String) (h : KeysNodup lvl) :
+    (Val.dict lvl.reverse).get? name = lookupField lvl name := by
+  simp only [Val.get?, lookupField, find_reverse_nodup lvl name h]
+
+theorem parseFields_cons_ok {name : String} {c : Con} {rest : List (String × Con)}
+    {lvl : List (String × Val)} {outer : Ctx} {bs : Bytes} {pos : Nat} {r : Val × Nat}
+    (h : parseFields ((name, c) :: rest) (lvl :: outer) bs pos = .ok r) :
+    ∃ v1 p1, parse c (lvl :: outer) bs pos = .ok (v1, p1) ∧
+      parseFields rest (setField lvl name v1 :: outer) bs p1 = .ok r := by
+  rw [parseFields] at h
+  simp only [bind_ok] at h
+  obtain ⟨⟨v1, p1⟩, h1, h2⟩ := h
+  exact ⟨v1, p1, h1, h2⟩
+
+/-- the value of a struct is the dict of its final level; names not among the fields keep their binding -/
+theorem parseFields_result (fs : List (String × Con)) :
+    ∀ (lvl : List (String × Val)) (outer : Ctx) (bs : Bytes) (pos : Nat) (v : Val) (pos' : Nat),
+      parseFields fs (lvl :: outer) bs pos = .ok (v, pos') → KeysNodup lvl →
+      ∃ lvlF, v = .dict lvlF.reverse ∧ KeysNodup lvlF ∧
+        ∀ name, name ∉ fs.map Prod.fst → lookupField lvlF name = lookupField lvl name := by
+  induction fs with
+  | nil =>
+    intro lvl outer bs pos v pos' h hn
+    rw [parseFields] at h
+    simp at h
+    exact ⟨lvl, h.1.symm, hn, fun _ _ => rfl⟩
+  | cons f rest ih =>
+    intro lvl outer bs pos v pos' h hn
+    obtain ⟨name, c⟩ := f
+    obtain ⟨v1, p1, h1, h2⟩ := parseFields_cons_ok h
+    obtain ⟨lvlF, e1, e2, e3⟩ := ih _ _ _ _ _ _ h2 (KeysNodup_setField name v1 hn)
+    refine ⟨lvlF, e1, e2, fun nm hnm => ?_⟩
+    simp only [List.map_cons, List.mem_cons, not_or] at hnm
+    rw [e3 nm hnm.2, lookupField_setField, if_neg hnm.1]
+
+theorem parseFields_get_persist {fs : List (String × Con)} {lvl : List (String × Val)} {outer : Ctx}
+    {bs : Bytes} {pos : Nat} {v : Val} {pos' : Nat}
+    (h : parseFields fs (lvl :: outer) bs pos = .ok (v, pos')) (hn : KeysNodup lvl)
+    (name : String) (hnm : name ∉ fs.map Prod.fst) : v.get? name = lookupField lvl name := by
+  obtain ⟨lvlF, e1, e2, e3⟩ := parseFields_result fs _ _ _ _ _ _ h hn
+  rw [e1, dict_get_reverse _ _ e2, e3 name hnm]
+
+def lastCon : List (String × Con) → String → Option Con
+  | [], _ => none
+  | (n, c) :: rest, name =>
+    match lastCon rest name with
+    | some c' => some c'
+    | none => if n = name then some c else none
+
+theorem lastCon_none {fs : List (String × Con)} {name : String} (h : lastCon fs name = none) :
+    name ∉ fs.map Prod.fst := by
+  induction fs with
+  | nil => simp
+  | cons f rest ih =>
+    obtain ⟨n, c⟩ := f
+    rw [lastCon] at h
+    split at h
+    · simp at h
+    · rename_i hr
+      split at h
+      · simp at h
+      · rename_i hne
+        simp only [List.map_cons, List.mem_cons, not_or]
+        exact ⟨fun h' => hne h'.symm, ih hr⟩
+
+theorem parseFields_get_last (fs : List (String × Con)) (name : String) (c : Con) :
+    ∀ (lvl : List (String × Val)) (outer : Ctx) (bs : Bytes) (pos : Nat) (v : Val) (pos' : Nat),
+      parseFields fs (lvl :: outer) bs pos = .ok (v, pos') → KeysNodup lvl → lastCon fs name = some c →
+      ∃ ctx' p1 w p2, parse c ctx' bs p1 = .ok (w, p2) ∧ v.get? name = some w := by
+  induction fs with
+  | nil => intro lvl outer bs pos v pos' h hn hl; simp [lastCon] at hl
+  | cons f rest ih =>
+    intro lvl outer bs pos v pos' h hn hl
+    obtain ⟨n, c0⟩ := f
+    obtain ⟨v1, p1, h1, h2⟩ := parseFields_cons_ok h
+    have hn' := KeysNodup_setField n v1 hn
+    rw [lastCon] at hl
+    split at hl
+    · rename_i c' hr
+      simp at hl; subst hl
+      exact ih _ _ _ _ _ _ h2 hn' hr
+    · rename_i hr
+      split at hl
+      · rename_i hnn
+        simp at hl; subst hl; subst hnn
+        refine ⟨_, _, v1, p1, h1, ?_⟩
+        rw [parseFields_get_persist h2 hn' n (lastCon_none hr), lookupField_setField, if_pos rfl]
+      · simp at hl
+
+theorem KeysNodup_nil : KeysNodup [] := by simp [KeysNodup]
+
+theorem struct_get {fs : List (String × Con)} {ctx : Ctx} {bs : Bytes} {pos : Nat} {v : Val} {p : Nat}
+    (h : parse (.struct fs) ctx bs pos = .ok (v, p)) (name : String) (c : Con)
+    (hl : lastCon fs name = some c) :
+    ∃ ctx' p1 w p2, parse c ctx' bs p1 = .ok (w, p2) ∧ v.get? name = some w := by
+  rw [parse] at h
+  exact parseFields_get_last fs name c _ _ _ _ _ _ h KeysNodup_nil hl
+
+theorem parseAInt_int {raw : Bytes} {lf : Leaf} (h : parseAInt raw = .ok lf) : ∃ m : Int, lf = .int m := by
+  unfold parseAInt at h
+  simp only [bind_ok] at h
+  obtain ⟨s, _, h⟩ := h
+  split at h
+  · simp [pure_ok] at h; exact ⟨_, h.symm⟩
+  · split at h
+    · simp [pure_ok] at h; exact ⟨_, h.symm⟩
+    · simp [throw, throwThe, MonadExceptOf.throw] at h
+
+theorem evalLen_ok {ctx : Ctx} {e : Expr} {n : Nat} (h : evalLen ctx e = .ok n) :
+    e.eval ctx = some (n : Int) := by
+  unfold evalLen at h
+  split at h
+  · simp at h
+  · rename_i z hz
+    split at h
+    · simp at h
+    · simp at h
+      rw [hz, ← h]
+      congr 1
+      omega
+
+theorem parse_aint_inv {e : Expr} {ctx : Ctx} {bs : Bytes} {pos : Nat} {v : Val} {p : Nat}
+    (h : parse (.aint e) ctx bs pos = .ok (v, p)) :
+    ∃ (n : Nat) (m : Int), e.eval ctx = some (n : Int) ∧ p = pos + n ∧ v = .leaf (.int m) := by
+  rw [parse] at h
+  simp only [bind_ok, pure_ok] at h
+  obtain ⟨n, h0, raw, h1, lf, h2, h3⟩ := h
+  obtain ⟨m, rfl⟩ := parseAInt_int h2
+  simp at h3
+  exact ⟨n, m, evalLen_ok h0, h3.2.symm, h3.1.symm⟩
+
+theorem parse_uint_inv {n : Nat} {ctx : Ctx} {bs : Bytes} {pos : Nat} {v : Val} {p : Nat}
+    (h : parse (.uint n) ctx bs pos = .ok (v, p)) :
+    ∃ m : Nat, p = pos + n ∧ v = .leaf (.int m) := by
+  rw [parse] at h
+  simp only [bind_ok, pure_ok] at h
+  obtain ⟨raw, h1, h3⟩ := h
+  simp at h3
+  exact ⟨_, h3.2.symm, h3.1.symm⟩
+
+theorem parse_pstr_inv {e : Expr} {ctx : Ctx} {bs : Bytes} {pos : Nat} {v : Val} {p : Nat}
+    (h : parse (.pstr e) ctx bs pos = .ok (v, p)) :
+    ∃ (n : Nat), e.eval ctx = some (n : Int) ∧ p = pos + n := by
+  rw [parse] at h
+  simp only [bind_ok, pure_ok] at h
+  obtain ⟨n, h0, raw, h1, lf, h2, h3⟩ := h
+  simp at h3
+  exact ⟨n, evalLen_ok h0, h3.2.symm⟩
+
+theorem parse_array_inv {e : Expr} {elem : Con} {ctx : Ctx} {bs : Bytes} {pos : Nat} {v : Val} {p : Nat}
+    (h : parse (.array e elem) ctx bs pos = .ok (v, p)) (k : Nat) (hk : Con.sizeWith false elem = some k) :
+    ∃ (n : Nat), e.eval ctx = some (n : Int) ∧ p = pos + n * k := by
+  rw [parse] at h
+  simp only [bind_ok, pure_ok] at h
+  obtain ⟨n, h0, ⟨vs, p1⟩, h1, h3⟩ := h
+  simp at h3
+  have := parseMany_static (fun p => parse elem ctx bs p) k bs.length
+      (fun p v p' hh => static_joint.1 elem ctx bs p k v p' hk hh) n pos vs p1 h1
+  exact ⟨n, evalLen_ok h0, by omega⟩
+
+theorem struct_get_uint {fs : List (String × Con)} {ctx : Ctx} {bs : Bytes} {pos : Nat} {v : Val} {p : Nat}
+    (h : parse (.struct fs) ctx bs pos = .ok (v, p)) (name : String) (m : Nat)
+    (hl : lastCon fs name = some (.uint m)) :
+    ∃ L : Nat, v.get? name = some (.leaf (.int L)) := by
+  obtain ⟨ctx', p1, w, p2, h1, h2⟩ := struct_get h name _ hl
+  obtain ⟨L, _, rfl⟩ := parse_uint_inv h1
+  exact ⟨L, h2⟩
+
+theorem struct_get_aint {fs : List (String × Con)} {ctx : Ctx} {bs : Bytes} {pos : Nat} {v : Val} {p : Nat}
+    (h : parse (.struct fs) ctx bs pos = .ok (v, p)) (name : String) (e : Expr)
+    (hl : lastCon fs name = some (.aint e)) :
+    ∃ L : Int, v.get? name = some (.leaf (.int L)) := by
+  obtain ⟨ctx', p1, w, p2, h1, h2⟩ := struct_get h name _ hl
+  obtain ⟨_, L, _, _, rfl⟩ := parse_aint_inv h1
+  exact ⟨L, h2⟩
+
+/-- peel the first member off a `parseFields` hypothesis (the old hypothesis is cleared) -/
+macro "layout_step " h:ident " with " v:ident p:ident h1:ident : tactic =>
+  `(tactic| (have hnew := parseFields_cons_ok $h; clear $h; obtain ⟨$v:ident, $p:ident, $h1:ident, $h:ident⟩ := hnew))
+
+/-- skip a static block of members at the front of a struct -/
+theorem parseFields_static_prefix (fs rest : List (String × Con)) :
+    ∀ (k : Nat) (lvl : List (String × Val)) (outer : Ctx) (bs : Bytes) (pos : Nat) (r : Val × Nat),
+      parseFields (fs ++ rest) (lvl :: outer) bs pos = .ok r → Con.sizeFields false fs = some k →
+      KeysNodup lvl →
+      ∃ lvl1, parseFields rest (lvl1 :: outer) bs (pos + k) = .ok r ∧ KeysNodup lvl1 ∧
+        ∀ name, name ∉ fs.map Prod.fst → lookupField lvl1 name = lookupField lvl name := by
+  induction fs with
+  | nil =>
+    intro k lvl outer bs pos r h hs hn
+    simp [Con.sizeFields] at hs
+    subst hs
+    exact ⟨lvl, h, hn, fun _ _ => rfl⟩
+  | cons f fs ih =>
+    intro k lvl outer bs pos r h hs hn
+    obtain ⟨name, c⟩ := f
+    rw [List.cons_append] at h
+    obtain ⟨v1, p1, h1, h2⟩ := parseFields_cons_ok h
+    rw [Con.sizeFields] at hs
+    split at hs
+    · rename_i a b ha hb
+      simp at hs; subst hs
+      obtain ⟨rfl, _⟩ := static_joint.1 c _ _ _ a _ _ ha h1
+      obtain ⟨lvl1, e1, e2, e3⟩ := ih b _ _ _ _ _ h2 hb (KeysNodup_setField name v1 hn)
+      refine ⟨lvl1, by rw [← Nat.add_assoc]; exact e1, e2, fun nm hnm => ?_⟩
+      simp only [List.map_cons, List.mem_cons, not_or] at hnm
+      rw [e3 nm hnm.2, lookupField_setField, if_neg hnm.1]
+    · simp at hs
+
+theorem parseFields_static_take (i : Nat) {fs : List (String × Con)} {k : Nat} {lvl : List (String × Val)}
+    {outer : Ctx} {bs : Bytes} {pos : Nat} {r : Val × Nat}
+    (h : parseFields fs (lvl :: outer) bs pos = .ok r) (hs : Con.sizeFields false (fs.take i) = some k)
+    (hn : KeysNodup lvl) :
+    ∃ lvl1, parseFields (fs.drop i) (lvl1 :: outer) bs (pos + k) = .ok r ∧ KeysNodup lvl1 ∧
+        ∀ name, name ∉ (fs.take i).map Prod.fst → lookupField lvl1 name = lookupField lvl name := by
+  rw [← List.take_append_drop i fs] at h
+  exact parseFields_static_prefix _ _ _ _ _ _ _ _ h hs hn
+
+theorem parseFields_cons_ok' {name : String} {c : Con} {rest : List (String × Con)}
+    {lvl : List (String × Val)} {outer : Ctx} {bs : Bytes} {pos : Nat} {v : Val} {pos' : Nat}
+    (h : parseFields ((name, c) :: rest) (lvl :: outer) bs pos = .ok (v, pos')) (hn : KeysNodup lvl) :
+    ∃ v1 p1, parse c (lvl :: outer) bs pos = .ok (v1, p1) ∧
+      parseFields rest (setField lvl name v1 :: outer) bs p1 = .ok (v, pos') ∧
+      KeysNodup (setField lvl name v1) ∧ (name ∉ rest.map Prod.fst → v.get? name = some v1) := by
+  obtain ⟨v1, p1, h1, h2⟩ := parseFields_cons_ok h
+  have hn' := KeysNodup_setField name v1 hn
+  refine ⟨v1, p1, h1, h2, hn', fun hnm => ?_⟩
+  rw [parseFields_get_persist h2 hn' name hnm, lookupField_setField, if_pos rfl]
+
+/-- peel the first member off a `parseFields` hypothesis, keeping the key invariant and the fact that the
+    member's value is what the final dict holds under that name -/
+macro "layout_step' " h:ident hn:ident " with " v:ident p:ident h1:ident g:ident : tactic =>
+  `(tactic| (have hnew := parseFields_cons_ok' $h $hn; clear $h; clear $hn
+             obtain ⟨$v:ident, $p:ident, $h1:ident, $h:ident, $hn:ident, $g:ident⟩ := hnew
+             replace $g:ident := $g (by decide)))
+
+theorem getPath_cons {v w : Val} {n : String} (rest : List String) (h : v.get? n = some w) :
+    v.getPath (n :: rest) = w.getPath rest := by
+  rw [Val.getPath, h]
+
+theorem sarLeaderRecord_eq : Gen.sarLeaderRecord = .struct [
+    ("file_descriptor", Gen.leaderFileDescriptor),
+    ("dataset_summary", Gen.datasetSummaryRecord),
+    ("map_projection", .array (.path ["file_descriptor", "map_projection", "number_of_records"])
+      Gen.mapProjectionRecord),
+    ("platform_position", Gen.platformPositionRecord),
+    ("attitude", Gen.attitudeRecord),
+    ("radiometric_data", Gen.radiometricDataRecord),
+    ("data_quality_summary", Gen.dataQualitySummaryRecord),
+    ("facility_related_data_1", Gen.facilityRelatedDataRecord),
+    ("facility_related_data_2", Gen.facilityRelatedDataRecord),
+    ("facility_related_data_3", Gen.facilityRelatedDataRecord),
+    ("facility_related_data_4", Gen.facilityRelatedDataRecord),
+    ("facility_related_data_5", Gen.facilityRelatedData5Record)] := rfl
+
+end Layout
+
 /-! ### framing of the dynamic records: a successful parse consumes exactly the declared bytes -/
 
 /-- attitude record with `n` points and declared length `L`: consumes exactly `L` (and `16 + 120 n ≤ L`) -/
@@ -55,26 +796,122 @@ theorem attitude_consumes (ctx : Ctx) (bs : Bytes) (pos : Nat) (v : Val) (pos' :
     ∃ L n : Nat, v.getPath ["preamble", "record_length"] = some (.leaf (.int L)) ∧
       v.getPath ["number_of_points"] = some (.leaf (.int n)) ∧
       16 + 120 * n ≤ L ∧ pos' = pos + L := by
-  sorry
+  unfold Gen.attitudeRecord at h
+  rw [parse] at h
+  layout_step h with vp p1 h1
+  layout_step h with vn p2 h2
+  layout_step h with va p3 h3
+  have hn2 := KeysNodup_setField "number_of_points" vn (KeysNodup_setField "preamble" vp KeysNodup_nil)
+  have g1 := parseFields_get_persist h (KeysNodup_setField "data_points" va hn2) "preamble" (by decide)
+  have g2 := parseFields_get_persist h (KeysNodup_setField "data_points" va hn2) "number_of_points" (by decide)
+  layout_step h with vb p4 h4
+  rw [parseFields] at h
+  obtain ⟨L, hL⟩ := struct_get_uint h1 "record_length" 4 rfl
+  obtain ⟨rfl, _⟩ := static_joint.1 _ _ _ _ 12 _ _ (by decide) h1
+  obtain ⟨w, m, hw, rfl, rfl⟩ := parse_aint_inv h2
+  obtain ⟨n, hn, rfl⟩ := parse_array_inv h3 120 (by decide)
+  obtain ⟨b, hb, rfl⟩ := parse_pstr_inv h4
+  simp [Expr.eval, resolve, lookupField_setField, hL, Val.toInt?] at hn hb
+  simp [Expr.eval] at hw
+  simp at h
+  simp [lookupField_setField] at g1 g2
+  refine ⟨L, n, ?_, ?_, by omega, by omega⟩
+  · simp [Val.getPath, g1, hL]
+  · simp [Val.getPath, g2, hn]
 
 /-- data-quality summary with `n` channels: consumes exactly 1620 bytes, and `n ≤ 16` -/
 theorem dqs_consumes (ctx : Ctx) (bs : Bytes) (pos : Nat) (v : Val) (pos' : Nat)
     (h : parse Gen.dataQualitySummaryRecord ctx bs pos = .ok (v, pos')) :
     ∃ n : Nat, v.getPath ["number_of_channels"] = some (.leaf (.int n)) ∧ n ≤ 16 ∧ pos' = pos + 1620 := by
-  sorry
+  unfold Gen.dataQualitySummaryRecord at h
+  rw [parse] at h
+  layout_step h with v1 p1 h1
+  layout_step h with v2 p2 h2
+  layout_step h with v3 p3 h3
+  layout_step h with v4 p4 h4
+  layout_step h with v5 p5 h5
+  have hn5 := KeysNodup_setField "number_of_channels" v5 (KeysNodup_setField "date_of_the_last_calibration_update" v4
+    (KeysNodup_setField "sar_channel_id" v3 (KeysNodup_setField "record_number" v2
+    (KeysNodup_setField "preamble" v1 KeysNodup_nil))))
+  have g1 := parseFields_get_persist h hn5 "number_of_channels" (by decide)
+  layout_step h with v6 p6 h6
+  layout_step h with v7 p7 h7
+  layout_step h with v8 p8 h8
+  layout_step h with v9 p9 h9
+  rw [parseFields] at h
+  obtain ⟨rfl, _⟩ := static_joint.1 _ _ _ _ 12 _ _ (by decide) h1
+  obtain ⟨rfl, _⟩ := static_joint.1 _ _ _ _ 4 _ _ (by decide) h2
+  obtain ⟨rfl, _⟩ := static_joint.1 _ _ _ _ 4 _ _ (by decide) h3
+  obtain ⟨rfl, _⟩ := static_joint.1 _ _ _ _ 6 _ _ (by decide) h4
+  obtain ⟨w, m, hw, rfl, rfl⟩ := parse_aint_inv h5
+  obtain ⟨rfl, _⟩ := static_joint.1 _ _ _ _ 192 _ _ (by decide) h6
+  obtain ⟨rfl, _⟩ := static_joint.1 _ _ _ _ 96 _ _ (by decide) h8
+  rw [parse] at h7 h9
+  layout_step h7 with va q1 h71
+  layout_step h7 with vb q2 h72
+  rw [parseFields] at h7
+  layout_step h9 with vc q3 h91
+  layout_step h9 with vd q4 h92
+  rw [parseFields] at h9
+  obtain ⟨n1, hn1, rfl⟩ := parse_array_inv h71 32 (by decide)
+  obtain ⟨b1, hb1, rfl⟩ := parse_pstr_inv h72
+  obtain ⟨n2, hn2, rfl⟩ := parse_array_inv h91 32 (by decide)
+  obtain ⟨b2, hb2, rfl⟩ := parse_pstr_inv h92
+  simp [Expr.eval, resolve, lookupField_setField, Val.toInt?] at hw hn1 hb1 hn2 hb2
+  simp at h7 h9
+  simp at h
+  simp [lookupField_setField] at g1
+  obtain ⟨_, h7⟩ := h7
+  obtain ⟨_, h9⟩ := h9
+  obtain ⟨_, h⟩ := h
+  refine ⟨n1, ?_, by omega, by omega⟩
+  simp [Val.getPath, g1, hn1]
 
 /-- facility-related data records 1–4 of declared length `L`: consume exactly `L` (and `66 ≤ L`) -/
 theorem facility_consumes (ctx : Ctx) (bs : Bytes) (pos : Nat) (v : Val) (pos' : Nat)
     (h : parse Gen.facilityRelatedDataRecord ctx bs pos = .ok (v, pos')) :
     ∃ L : Nat, v.getPath ["preamble", "record_length"] = some (.leaf (.int L)) ∧ 66 ≤ L ∧ pos' = pos + L := by
-  sorry
+  unfold Gen.facilityRelatedDataRecord at h
+  rw [parse] at h
+  layout_step h with vp p1 h1
+  have g1 := parseFields_get_persist h (KeysNodup_setField "preamble" vp KeysNodup_nil) "preamble" (by decide)
+  layout_step h with vn p2 h2
+  layout_step h with va p3 h3
+  layout_step h with vb p4 h4
+  rw [parseFields] at h
+  obtain ⟨L, hL⟩ := struct_get_uint h1 "record_length" 4 rfl
+  obtain ⟨rfl, _⟩ := static_joint.1 _ _ _ _ 12 _ _ (by decide) h1
+  obtain ⟨w, m, hw, rfl, rfl⟩ := parse_aint_inv h2
+  obtain ⟨a, ha, rfl⟩ := parse_pstr_inv h3
+  obtain ⟨b, hb, rfl⟩ := parse_pstr_inv h4
+  simp [Expr.eval, resolve, lookupField_setField, hL, Val.toInt?] at hw ha hb
+  simp at h
+  simp [lookupField_setField] at g1
+  refine ⟨L, ?_, by omega, by omega⟩
+  simp [Val.getPath, g1, hL]
 
 /-- volume directory with `k` file-pointer records: consumes exactly `360 (k + 2)` bytes -/
 theorem volume_consumes (ctx : Ctx) (bs : Bytes) (pos : Nat) (v : Val) (pos' : Nat)
     (h : parse Gen.volumeDirectoryRecord ctx bs pos = .ok (v, pos')) :
     ∃ k : Nat, v.getPath ["volume_descriptor", "number_of_file_pointer_records"] = some (.leaf (.int k)) ∧
       pos' = pos + 360 * (k + 2) := by
-  sorry
+  unfold Gen.volumeDirectoryRecord at h
+  rw [parse] at h
+  layout_step h with v1 p1 h1
+  have g1 := parseFields_get_persist h (KeysNodup_setField "volume_descriptor" v1 KeysNodup_nil)
+    "volume_descriptor" (by decide)
+  layout_step h with v2 p2 h2
+  layout_step h with v3 p3 h3
+  rw [parseFields] at h
+  obtain ⟨k, hk⟩ := struct_get_aint h1 "number_of_file_pointer_records" _ rfl
+  obtain ⟨rfl, _⟩ := static_joint.1 _ _ _ _ 360 _ _ (by decide) h1
+  obtain ⟨n, hn, rfl⟩ := parse_array_inv h2 360 (by decide)
+  obtain ⟨rfl, _⟩ := static_joint.1 _ _ _ _ 360 _ _ (by decide) h3
+  simp [Expr.eval, resolve, lookupField_setField, hk, Val.toInt?] at hn
+  simp at h
+  simp [lookupField_setField] at g1
+  refine ⟨n, ?_, by omega⟩
+  simp [Val.getPath, g1, hk, hn]
 
 /-- trailer descriptor with `k` low-resolution image entries: parses inside the 720 bytes read for it
     (it consumes 694 bytes for every admissible `k ≤ 7`; the reader slices the images from offset 720) -/
@@ -82,7 +919,24 @@ theorem trailer_consumes (ctx : Ctx) (bs : Bytes) (pos : Nat) (v : Val) (pos' : 
     (h : parse Gen.trailerFileDescriptor ctx bs pos = .ok (v, pos')) :
     ∃ k : Nat, v.getPath ["number_of_low_resolution_images"] = some (.leaf (.int k)) ∧ k ≤ 7 ∧
       pos' = pos + 694 := by
-  sorry
+  unfold Gen.trailerFileDescriptor at h
+  rw [parse] at h
+  obtain ⟨lvl1, h, hn1, -⟩ := parseFields_static_take 40 (k := 490) h (by decide +kernel) KeysNodup_nil
+  simp only [List.drop_succ_cons, List.drop_zero] at h
+  layout_step h with v1 p1 h1
+  have g1 := parseFields_get_persist h (KeysNodup_setField "number_of_low_resolution_images" v1 hn1)
+    "number_of_low_resolution_images" (by decide)
+  layout_step h with v2 p2 h2
+  layout_step h with v3 p3 h3
+  rw [parseFields] at h
+  obtain ⟨w, m, hw, rfl, rfl⟩ := parse_aint_inv h1
+  obtain ⟨n, hn, rfl⟩ := parse_array_inv h2 26 (by decide)
+  obtain ⟨b, hb, rfl⟩ := parse_pstr_inv h3
+  simp [Expr.eval, resolve, lookupField_setField, Val.toInt?] at hw hn hb
+  simp at h
+  simp [lookupField_setField] at g1
+  refine ⟨n, ?_, by omega, by omega⟩
+  simp [Val.getPath, g1, hn]
 
 /-- the whole leader: the end position is the sum of the lengths the file declares, so each record starts
     where the previous one's declared bytes end (map projection present `k = 1` or absent `k = 0`, any
@@ -97,6 +951,44 @@ theorem leader_consumes (bs : Bytes) (v : Val) (pos' : Nat)
       v.getPath ["facility_related_data_3", "preamble", "record_length"] = some (.leaf (.int L3)) ∧
       v.getPath ["facility_related_data_4", "preamble", "record_length"] = some (.leaf (.int L4)) ∧
       pos' = 720 + 4096 + k * 1620 + 4680 + La + 9860 + 1620 + L1 + L2 + L3 + L4 + 5000 := by
-  sorry
+  rw [sarLeaderRecord_eq, parse] at h
+  have hn := KeysNodup_nil
+  layout_step' h hn with v1 p1 h1 g1
+  layout_step' h hn with v2 p2 h2 g2
+  layout_step' h hn with v3 p3 h3 g3
+  layout_step' h hn with v4 p4 h4 g4
+  layout_step' h hn with v5 p5 h5 g5
+  layout_step' h hn with v6 p6 h6 g6
+  layout_step' h hn with v7 p7 h7 g7
+  layout_step' h hn with v8 p8 h8 g8
+  layout_step' h hn with v9 p9 h9 g9
+  layout_step' h hn with v10 p10 h10 g10
+  layout_step' h hn with v11 p11 h11 g11
+  layout_step' h hn with v12 p12 h12 g12
+  rw [parseFields] at h
+  simp at h
+  obtain ⟨-, h⟩ := h
+  obtain ⟨ctx', q1, w, q2, hw, hw1⟩ := struct_get h1 "map_projection" _ rfl
+  obtain ⟨k, hk⟩ := struct_get_aint hw "number_of_records" _ rfl
+  obtain ⟨rfl, _⟩ := static_joint.1 _ _ _ _ 720 _ _ static_sizes.2.2.1 h1
+  obtain ⟨rfl, _⟩ := static_joint.1 _ _ _ _ 4096 _ _ static_sizes.2.2.2.1 h2
+  obtain ⟨n, hn3, rfl⟩ := parse_array_inv h3 1620 static_sizes.2.2.2.2.1
+  obtain ⟨rfl, _⟩ := static_joint.1 _ _ _ _ 4680 _ _ static_sizes.2.2.2.2.2.1 h4
+  obtain ⟨La, na, ha1, -, -, rfl⟩ := attitude_consumes _ _ _ _ _ h5
+  obtain ⟨rfl, _⟩ := static_joint.1 _ _ _ _ 9860 _ _ static_sizes.2.2.2.2.2.2.1 h6
+  obtain ⟨nd, -, -, rfl⟩ := dqs_consumes _ _ _ _ _ h7
+  obtain ⟨L1, hf1, -, rfl⟩ := facility_consumes _ _ _ _ _ h8
+  obtain ⟨L2, hf2, -, rfl⟩ := facility_consumes _ _ _ _ _ h9
+  obtain ⟨L3, hf3, -, rfl⟩ := facility_consumes _ _ _ _ _ h10
+  obtain ⟨L4, hf4, -, rfl⟩ := facility_consumes _ _ _ _ _ h11
+  obtain ⟨rfl, _⟩ := static_joint.1 _ _ _ _ 5000 _ _ static_sizes.2.2.2.2.2.2.2.1 h12
+  simp [Expr.eval, resolve, lookupField_setField, hw1, hk, Val.toInt?] at hn3
+  refine ⟨n, La, L1, L2, L3, L4, ?_, ?_, ?_, ?_, ?_, ?_, by omega⟩
+  · rw [getPath_cons _ g1, getPath_cons _ hw1, getPath_cons _ hk, hn3]; rfl
+  · rw [getPath_cons _ g5, ha1]
+  · rw [getPath_cons _ g8, hf1]
+  · rw [getPath_cons _ g9, hf2]
+  · rw [getPath_cons _ g10, hf3]
+  · rw [getPath_cons _ g11, hf4]
 
 end Alos2
